@@ -94,6 +94,31 @@ impl Prop for P {
                 for (i, s) in scheds.iter().enumerate() {
                     env.compare(s, &format!("random schedule #{i}"), cx)?;
                 }
+                // the slice-iterator helper: one slice vs. the same bytes in several slices
+                if ring.is_none() {
+                    let cap = env.ref_out_len + 300;
+                    let one = {
+                        let mut out = vec![0u8; cap];
+                        let r = guard(|| miniz_oxide::inflate::decompress_slice_iter_to_slice(&mut out, std::iter::once(&data[..]), zl, false)).map_err(|pm| Violation::new(panic_sig("slice_iter", &pm), format!("panic: {pm}")))?;
+                        (r, r.ok().map(|n| out[..n].to_vec()))
+                    };
+                    for s in scheds {
+                        let mut cuts: Vec<usize> = s.chunks.iter().scan(0usize, |acc, &c| { *acc = (*acc + c as usize).min(data.len()); Some(*acc) }).collect();
+                        cuts.dedup();
+                        let mut slices: Vec<&[u8]> = Vec::new();
+                        let mut p = 0;
+                        for c in cuts {
+                            slices.push(&data[p..c]);
+                            p = c;
+                        }
+                        slices.push(&data[p..]);
+                        let mut out = vec![0u8; cap];
+                        let r = guard(|| miniz_oxide::inflate::decompress_slice_iter_to_slice(&mut out, slices.iter().copied(), zl, false)).map_err(|pm| Violation::new(panic_sig("slice_iter", &pm), format!("panic: {pm}")))?;
+                        let many = (r, r.ok().map(|n| out[..n].to_vec()));
+                        vensure!(many == one, "c07:slice-iter-partition-changes-result", "decompress_slice_iter_to_slice: one slice gives {:?}, {} slices give {:?} (input {} bytes)", one.0, slices.len(), many.0, data.len());
+                        cx.evals(1);
+                    }
+                }
                 Ok(())
             }
             Case::Inflate { input, slicings } => {
